@@ -677,7 +677,7 @@ int main(int argc, char** argv)
                      * no input is read, the parameters of the header are reported, decoding resumes where it stood */
                     int how; 
                     for (how = 0; how < 3; how++) {
-                        LZ4F_frameInfo_t fi; size_t hs = LZ4F_headerSize(a.p, a.n), fed = 0, sz, hr; int bad = 0; u8 small[8];
+                        LZ4F_frameInfo_t fi; size_t hs = LZ4F_headerSize(a.p, a.n), fed = 0, sz, hr, lastres = 1; int bad = 0; u8 small[8];
                         if (LZ4F_isError(hs) || a.n < hs + 4) break;
                         LZ4F_resetDecompressionContext(dctx);
                         while (!bad && fed < hs) {      /* how 0: everything offered, output capacity 0; how 1: header bytes in pieces of 1..5; how 2: exactly the header */
@@ -686,10 +686,11 @@ int main(int argc, char** argv)
                             src = xalloc(in); memcpy(src, a.p + fed, in);
                             res = dds ? LZ4F_decompress_usingDict(dctx, small, &o, src, &in, dd, dds, NULL) : LZ4F_decompress(dctx, small, &o, src, &in, NULL); n_calls++; free(src);   /* the dictionary is registered by the FIRST call of a frame */
                             if (LZ4F_isError(res) || o != 0) { bad = 1; break; }
+                            lastres = res;
                             if (in == 0) break;
                             fed += in;
                         }
-                        if (bad || fed < hs) { LZ4F_resetDecompressionContext(dctx); continue; }
+                        if (bad || fed < hs || lastres == 0) { LZ4F_resetDecompressionContext(dctx); continue; }   /* lastres == 0: an empty frame offered whole was decoded to its end: no frame is in progress any more */
                         memset(&fi, 0x5A, sizeof fi); sz = a.n - fed;
                         { u8* src = xalloc(sz); memcpy(src, a.p + fed, sz); hr = LZ4F_getFrameInfo(dctx, &fi, src, &sz); free(src); }
                         if (LZ4F_isError(hr)) c_fail(&r, "getFrameInfo_failed");
